@@ -73,12 +73,12 @@ var docTypes = [nDocTypes]docType{
 	dHookNull:  {"hookNull", hookHead + "    helm.sh/hook:\n    example.verif/owner: team\ndata:\n  h: \"1\"\n", "dropped"},
 	dHookTilde: {"hookTilde", hookHead + "    helm.sh/hook: ~\ndata:\n  h: \"1\"\n", "dropped"},
 	dHookWs:    {"hookWs", hookHead + "    helm.sh/hook: \"  \"\ndata:\n  h: \"1\"\n", "dropped"},
-	dGadget:   {"gadget", "apiVersion: example.verif/v1\nkind: Gadget\nmetadata:\n  name: %s\n", "manifest"},
-	dHookUK:   {"hookUK", hookHead + "    helm.sh/hook: pre-frobnicate,post-install\ndata:\n  h: \"1\"\n", "dropped"},
-	dWsBlank:  {"wsblank", "  \n", "nothing"},
-	dCMKeep:   {"cmkeep", "apiVersion: v1\nkind: ConfigMap\nmetadata:\n  name: %s\ndata:\n  text: |+\n    line\n\n\n", "manifest"},
-	dIndent:   {"indented", "  apiVersion: v1\n  kind: ConfigMap\n  metadata:\n    name: %s\n  data:\n    k: v\n", "manifest"},
-	dAnno:     {"anno", "apiVersion: v1\nkind: Service\nmetadata:\n  name: %s\n  annotations:\n    example.verif/owner: team\nspec:\n  ports:\n  - port: 81\n", "manifest"},
+	dGadget:    {"gadget", "apiVersion: example.verif/v1\nkind: Gadget\nmetadata:\n  name: %s\n", "manifest"},
+	dHookUK:    {"hookUK", hookHead + "    helm.sh/hook: pre-frobnicate,post-install\ndata:\n  h: \"1\"\n", "dropped"},
+	dWsBlank:   {"wsblank", "  \n", "nothing"},
+	dCMKeep:    {"cmkeep", "apiVersion: v1\nkind: ConfigMap\nmetadata:\n  name: %s\ndata:\n  text: |+\n    line\n\n\n", "manifest"},
+	dIndent:    {"indented", "  apiVersion: v1\n  kind: ConfigMap\n  metadata:\n    name: %s\n  data:\n    k: v\n", "manifest"},
+	dAnno:      {"anno", "apiVersion: v1\nkind: Service\nmetadata:\n  name: %s\n  annotations:\n    example.verif/owner: team\nspec:\n  ports:\n  - port: 81\n", "manifest"},
 }
 
 func docBody(t int, name string) string {
@@ -116,15 +116,15 @@ type fileSpec struct {
 
 // pcase is one generated chart; it is what replays store.
 type pcase struct {
-	Files    []fileSpec `json:"files"`
-	Notes    bool       `json:"notes,omitempty"`     // templates/NOTES.txt (content looks like a resource)
-	Helpers  bool       `json:"helpers,omitempty"`   // templates/_helpers.tpl rendering a resource-looking document
-	Sub      []fileSpec `json:"sub,omitempty"`       // subchart "sub1" template files
-	SubOn    bool       `json:"sub_on,omitempty"`    // subchart present (possibly with NOTES only)
-	SubNotes bool       `json:"sub_notes,omitempty"` // subchart has templates/NOTES.txt
-	SubFlag  bool       `json:"sub_flag,omitempty"`  // action flag SubNotes (--render-subchart-notes)
-	XNotes   []notesSpec `json:"xnotes,omitempty"`  // further NOTES.txt files: any location, any content
-	Real     bool       `json:"real,omitempty"`      // sub-part U: real install + uninstall on the simulated cluster instead of a dry run
+	Files    []fileSpec  `json:"files"`
+	Notes    bool        `json:"notes,omitempty"`     // templates/NOTES.txt (content looks like a resource)
+	Helpers  bool        `json:"helpers,omitempty"`   // templates/_helpers.tpl rendering a resource-looking document
+	Sub      []fileSpec  `json:"sub,omitempty"`       // subchart "sub1" template files
+	SubOn    bool        `json:"sub_on,omitempty"`    // subchart present (possibly with NOTES only)
+	SubNotes bool        `json:"sub_notes,omitempty"` // subchart has templates/NOTES.txt
+	SubFlag  bool        `json:"sub_flag,omitempty"`  // action flag SubNotes (--render-subchart-notes)
+	XNotes   []notesSpec `json:"xnotes,omitempty"`    // further NOTES.txt files: any location, any content
+	Real     bool        `json:"real,omitempty"`      // sub-part U: real install + uninstall on the simulated cluster instead of a dry run
 }
 
 // notesSpec is one NOTES.txt file.
